@@ -98,7 +98,7 @@ fn generate_enum(
         let variant_name = field_name.to_upper_camel_case();
         let safe_variant_name = keyword_replace(&variant_name);
 
-        let annotation = field_rename_annotation(field_name.as_ref(), &variant_name);
+        let annotation = field_rename_annotation(field_name.as_ref(), safe_variant_name.as_ref());
         let name_ident = Ident::new(safe_variant_name.as_ref(), Span::call_site());
 
         let normalized_field_type_name = options
